@@ -490,6 +490,57 @@ impl Runner {
                     writeln!(out, "{}", ev).unwrap();
                     i += 1;
                 }
+                "cli" => {
+                    // the command-line front end on the same text (PV_CLI_BIN): the stacks it prints before
+                    // every step, to be compared with the chain of library steps recorded before this act
+                    const MAX_BLOCKS: usize = 400;
+                    let bin = std::env::var("PV_CLI_BIN").unwrap_or_default();
+                    let text = act["text"].as_str().unwrap_or("").to_string();
+                    let mut child = std::process::Command::new("timeout").arg("3").arg(&bin).arg(&text)
+                        .stdout(std::process::Stdio::piped()).stderr(std::process::Stdio::null()).spawn().expect("run pushr");
+                    let mut stdout = String::new();
+                    {
+                        use std::io::Read;
+                        let mut limited = child.stdout.take().unwrap().take(4 * 1024 * 1024);
+                        let mut buf = Vec::new();
+                        let _ = limited.read_to_end(&mut buf);
+                        stdout.push_str(&String::from_utf8_lossy(&buf));
+                    }
+                    let _ = child.kill();
+                    let status = child.wait().expect("wait pushr");
+                    let mut blocks: Vec<Value> = vec![];
+                    let mut cur = json!({});
+                    for line in stdout.split('\n') {
+                        if let Some(r) = line.strip_prefix("> EXEC  : ") {
+                            cur = json!({"exec": r});
+                        } else if let Some(r) = line.strip_prefix("> CODE  : ") {
+                            cur["code"] = json!(r);
+                        } else if let Some(r) = line.strip_prefix("> INT   : ") {
+                            cur["int"] = json!(r);
+                            blocks.push(cur.clone());
+                            if blocks.len() >= MAX_BLOCKS {
+                                break;
+                            }
+                        }
+                    }
+                    let mut ev = json!({"id": id, "i": i, "act": act, "post": project(&st),
+                        "ret": {"blocks": blocks, "done": stdout.trim_end().ends_with("Done."),
+                                "code": status.code().unwrap_or(-1), "capped": blocks.len() >= MAX_BLOCKS}});
+                    if let Some(p) = first.take() {
+                        ev["pre"] = p;
+                    }
+                    writeln!(out, "{}", ev).unwrap();
+                    i += 1;
+                }
+                "state_text" => {
+                    // Display of the whole state (no state change)
+                    let mut ev = json!({"id": id, "i": i, "act": act, "post": project(&st), "ret": st.to_string()});
+                    if let Some(p) = first.take() {
+                        ev["pre"] = p;
+                    }
+                    writeln!(out, "{}", ev).unwrap();
+                    i += 1;
+                }
                 _ => {
                     writeln!(out, "{}", json!({"id": id, "i": i, "act": act, "post": {"crash": "harness", "msg": "unknown act"}})).unwrap();
                     { crashed = true; break 'acts; }
